@@ -171,7 +171,7 @@ def real_signal_runs():
     tmp = tempfile.mkdtemp(prefix='verif-c14r-')
     cmds = []
     for be in ('fork', 'spawn'):
-        for mode in ('single', 'double'):
+        for mode in ('single', 'double') + (('double_block',) if be == 'fork' else ()):
             cmds.append(([sys.executable, os.path.join(HERE, 'intr_real.py'), be, mode, os.path.join(tmp, f'{be}_{mode}.json')],
                          os.path.join(tmp, f'{be}_{mode}.json')))
     out = []
@@ -188,7 +188,12 @@ def real_signal_runs():
             viol.append(dict(what=f'{tag}: run_tasks ended with {r["out"]}', replay=dict(kind='real-signal', rec=r)))
         if r['started_later'] != r['started'] or len(r['started']) > 2:
             viol.append(dict(what=f'{tag}: tasks {r["started_later"]} were started, {r["started"]} before the interrupt', replay=dict(kind='real-signal', rec=r)))
-        if r['mode'] == 'single':
+        if r['mode'] == 'double_block':
+            # the tasks block SIGTERM while they work: run_tasks must still raise at once, without waiting for them
+            if r['elapsed'] > 1.9:
+                viol.append(dict(what=f'{tag} (tasks that block SIGTERM): run_tasks ended {r["elapsed"]}s after the first signal: it waited for the terminated tasks',
+                                 replay=dict(kind='real-signal', rec=r)))
+        elif r['mode'] == 'single':
             if r['finished'] != r['started'] or r['cached'] != r['started'] or not r['cached_load_ok']:
                 viol.append(dict(what=f'{tag}: running tasks {r["started"]} were not drained and cached (finished {r["finished"]}, cached {r["cached"]})',
                                  replay=dict(kind='real-signal', rec=r)))
@@ -240,6 +245,12 @@ def run(ctx):
         for be, ncases, max_tids, stride in plan:
             for _ in range(ncases):
                 case = intr.gen_case(rng, be, max_tids)
+                if be == 'serial' and dist.get('serial_cases', 0) == 0:
+                    # first serial case: every task is already cached and the call busts the cache, so that
+                    # every save of the run OVERWRITES an entry (an interrupted overwrite must not leave a torn entry)
+                    case['bust'] = 1
+                    case['ca'] = [1, 1, 1]
+                    case['pre'] = {t: 1000 * t + 1 for t in range(len(case['ty'])) if any(tt == t for tt, _ in case['inst'])}
                 if be != 'serial' and len(cases) % 2 == 0:
                     case['sched'] = []   # every wait consumes all running workers: matches the model's default drain schedule
                 n = count_lines(case, tmp)
